@@ -90,6 +90,8 @@ pub static SPECS: &[LangSpec] = &[
     corpus: &[
       "int f(int a, int b) {\n  /* note */\n  return a + b;\n}\n",
       "struct s { int x; };\nvoid g(void) { f(1, 2); }\n",
+      // unnamed keyword tokens that start with the expando char of the language (`_`)
+      "int n = _Alignof(int) + _Generic(a, int: 1, default: 2);\n_Alignas(8) _Atomic int z;\n_Noreturn void h(void);\n",
     ],
   },
   LangSpec {
@@ -126,7 +128,10 @@ pub static SPECS: &[LangSpec] = &[
     name: "cpp",
     deep: false,
     tokens: &["a", "b", "1", "\"s\"", "/*c*/", "(", ")", "{", "}", ",", ";", "=", "int"],
-    corpus: &["class A : public B {\n public:\n  int m(int a) { return a + 1; }\n};\n"],
+    corpus: &[
+      "class A : public B {\n public:\n  int m(int a) { return a + 1; }\n};\n",
+      "int n = _Alignof(int);\n_Alignas(8) _Atomic int z;\n",
+    ],
   },
   LangSpec {
     lang: CSharp,
